@@ -592,9 +592,27 @@ impl<'a> Gen<'a> {
         }
     }
 
+    /// 2^31, 2^32, 2^63, 2^64 (-1, +0, +1, + a little) in ns, us, ms or s, capped at Duration::MAX.
+    fn cast_edge(&mut self) -> u128 {
+        let unit = *self.r.pick(&[1u128, 1_000, 1_000_000, 1_000_000_000]);
+        let p = *self.r.pick(&[31u32, 32, 32, 63, 64]);
+        let base = (1u128 << p).saturating_mul(unit);
+        match self.r.below(4) {
+            0 => base.saturating_sub(1),
+            1 => base,
+            2 => base.saturating_add(1),
+            _ => base.saturating_add(self.cfg.timeout_ns / 2),
+        }
+        .min(DUR_MAX_NS)
+    }
+
     /// Think-time gap, relative to the timeout.
     fn gap(&mut self) -> u128 {
         let t = self.cfg.timeout_ns;
+        if self.cfg.gap_scale >= 2 && self.r.chance(1, 40) {
+            // elapsed times at the numeric edges of Duration conversions, whatever the timeout
+            return self.cast_edge();
+        }
         let k = match self.cfg.gap_scale {
             0 => 0, // everything back to back
             1 => self.r.below(4),
@@ -756,7 +774,7 @@ impl<'a> Gen<'a> {
             k < p.w_chaff_other
         } {
             let hi = *self.r.pick(&[0x80u8, 0x90, 0xA0, 0xC0, 0xD0, 0xE0]);
-            let (d1, d2) = (self.r.u7(), self.r.u7());
+            let (d1, d2) = self.lookalike_data();
             q.push_back(Item { gap: 0, msg: Wire::Lit { b: [hi | ch, d1, d2] } });
         } else if {
             k -= p.w_chaff_other;
@@ -921,10 +939,28 @@ impl<'a> Gen<'a> {
         out
     }
 
+    /// Data bytes for a message that cannot contribute: half of the time they look as if they
+    /// could (data byte 1 is a contributing controller number, data byte 2 a small or recent value) -
+    /// a decoder that mistakes the message type is only visible then.
+    fn lookalike_data(&mut self) -> (u8, u8) {
+        if self.r.chance(1, 2) {
+            let d1 = *self.r.pick(&[6u8, 38, 96, 97, 98, 99, 100, 101, 0, 1, 7, 31, 32, 33, 39, 63]);
+            let d2 = match self.r.below(4) {
+                0 => *self.r.pick(&[0u8, 1, 127]),
+                1 => self.recent[self.r.below(16) as usize][self.r.below(2) as usize],
+                _ => self.r.u7(),
+            };
+            (d1, d2)
+        } else {
+            (self.r.u7(), self.r.u7())
+        }
+    }
+
     fn foreign_message(&mut self, ch: u8) -> [u8; 3] {
         // any of the 128 status bytes; CCs restricted to numbers that contribute to no scanner
-        let s = if self.r.chance(1, 2) { 0xB0 | ch } else { 0x80 + self.r.u7() };
-        let mut b = [s, self.r.u7(), self.r.u7()];
+        let s = if self.r.chance(1, 2) { 0xB0 | ch } else if self.r.chance(1, 2) { (0x80 + self.r.u7()) & 0xF0 | ch } else { 0x80 + self.r.u7() };
+        let (d1, d2) = self.lookalike_data();
+        let mut b = [s, d1, d2];
         if b[0] & 0xF0 == 0xB0 {
             if self.r.chance(1, 3) {
                 b[2] = *self.r.pick(&[0u8, 127, 64]);
@@ -1191,7 +1227,8 @@ impl<'a> Gen<'a> {
                 }
                 Action::SysSend => {
                     let s = 0xF0 + self.r.below(16) as u8;
-                    let b = [s, self.r.u7(), self.r.u7()];
+                    let (d1, d2) = self.lookalike_data();
+                    let b = [s, d1, d2];
                     sched!(at, Action::Deliver(Wire::Lit { b }));
                     let g = self.gap().max(1);
                     if at.saturating_add(g) < DUR_MAX_NS {
@@ -1350,7 +1387,13 @@ impl<'a> Gen<'a> {
                     4 => t.saturating_add(1),
                     5 => t / 2,
                     6 => t.saturating_mul(3),
-                    7 => self.r.below(1_000_000) as u128,
+                    7 => {
+                        if self.r.chance(1, 10) {
+                            self.cast_edge()
+                        } else {
+                            self.r.below(1_000_000) as u128
+                        }
+                    }
                     _ => {
                         if self.cfg.rate[F_CLOCK_JUMP] > 0 {
                             self.fire(F_CLOCK_JUMP, None);
@@ -1376,7 +1419,8 @@ impl<'a> Gen<'a> {
                     }
                     2 => {
                         let s = 0xF0 + self.r.below(16) as u8;
-                        let b = [s, self.r.u7(), self.r.u7()];
+                        let (d1, d2) = self.lookalike_data();
+                        let b = [s, d1, d2];
                         self.emit_wire(&Wire::Lit { b });
                     }
                     3 => {
